@@ -72,6 +72,9 @@ func genBig(r *rand.Rand, bits int) *big.Int {
 
 func (Fam) Gen(r *rand.Rand, i int) string {
 	if r.Intn(4) == 0 {
+		return genCoinsOp(r)
+	}
+	if r.Intn(4) == 0 {
 		k := kinds1[r.Intn(len(kinds1))]
 		bits := 255
 		if strings.HasPrefix(k, "dec.") && k != "dec.fromint" {
@@ -449,6 +452,9 @@ func doubleRounding(k string, a, b *big.Int) bool {
 func (Fam) Exec(op string) (string, []common.Failure) {
 	f := strings.Fields(op)
 	k := f[0]
+	if strings.HasPrefix(k, "coins.") {
+		return execCoins(op)
+	}
 	a := parse(f[1])
 	b := new(big.Int)
 	if len(f) > 2 {
